@@ -130,7 +130,7 @@ class KernelGroup(Group):
         self.sizes = dict(quick=list(sizes_quick), thorough=list(sizes_thorough))
         self.bound_text = bound_text
         self.timeout_ms = timeout_ms
-        self.inline_timeout_ms = 5000
+        self.inline_timeout_ms = 15000
         self.functions = [(contract.rel, contract.func, contract.cls)]
         self.assumptions = tuple(assumptions)
 
@@ -166,7 +166,7 @@ class KernelGroup(Group):
                 c.opaque(True)
                 try:
                     obls, stats = harness.function_obligations(c, mode, size)
-                    solve_inline(obls, c.extra_facts(), 4000, done, 'z3-5.1(py)+opaque-spec', keep_sat=False)
+                    solve_inline(obls, c.extra_facts(), 15000, done, 'z3-5.1(py)+opaque-spec', keep_sat=False)
                 finally:
                     c.opaque(False)
             obls, stats = harness.function_obligations(c, mode, size)
@@ -178,7 +178,7 @@ class KernelGroup(Group):
                     jobs.append(dict(name=nm, subgoals=[nm.split(':', 1)[1]], presolved=done[n_], kinds=[o.kind]))
             rest = [o for n_, o in enumerate(obls) if n_ not in done]
             if rest:
-                more = merge_by_hyp(rest, prefix + '.open', self.timeout_ms)
+                more = merge_by_hyp(rest, prefix + '.open', max(self.timeout_ms, 90000))
                 jobs.extend(more)
         for j in jobs:
             j['group'] = self.name
